@@ -178,7 +178,11 @@ func stdSeqHasSuffix(_ context.Context, suffix, subject rel.Value) (rel.Value, e
 }
 
 func stdSeqRepeat(_ context.Context, arg rel.Value) (rel.Value, error) {
-	n := int(arg.(rel.Number))
+	count, is := arg.(rel.Number)
+	if !is || count.Float64() < 0 || count.Float64() != float64(int(count.Float64())) {
+		return nil, fmt.Errorf("//seq.repeat: count must be a non-negative integer: %v", arg)
+	}
+	n := int(count)
 	return rel.NewNativeFunction("repeat(n)", func(_ context.Context, arg rel.Value) (rel.Value, error) {
 		switch seq := arg.(type) {
 		case rel.String:
